@@ -621,6 +621,10 @@ def _dispatch_rule(prog, chk, R, gates):
                 nm = [_str(x) for x in cp[1:] if _str(x) is not None][0]
                 break
         branches.setdefault(nm, []).append(node)
+    if not branches:
+        # no direct call of a simulator gate in the evaluator at all: the dispatch goes through a form this rule does not read
+        # (e.g. a table of member-function pointers) — nothing can be said about it
+        raise AnalysisBroken('built-in gate dispatch: no direct simulator gate call found in %s (indirect dispatch is not modelled)' % ev.short)
     simnames = set(gates)
     chk.ob('R01.4', ev, ev.ln, set(keys) == simnames, 'built-in table keys %s must equal the simulator gate set %s' % (sorted(keys), sorted(simnames)), key='keys=gates')
     chk.ob('R01.4', ev, ev.ln, set(k for k in branches if k) == set(keys) and None not in branches,
